@@ -760,6 +760,59 @@ def r01_11(ctx, p):
 
 
 # ------------------------------------------------------------------------------------------------
+KEY_COLUMNS = {"trial_id", "study_id", "key", "step", "objective", "param_name"}
+UPSERT_EXEMPT = {"record_heartbeat": "a new heartbeat row takes the column's server-side default timestamp; only the update writes it explicitly"}
+
+
+def r01_12(ctx, p):
+    ctx.rule("R01.12", "RDB upserts: the insert arm and the update arm write the same value columns with the same expressions (writes overwrite by key)")
+    rdb = p.cls(RDB)
+    n = 0
+    for mname, f in sorted(rdb.methods.items()):
+        g = None
+        for t_ast in [x for x in own_nodes(f.node) if isinstance(x, ast.If)]:
+            a = cmp_atom(t_ast.test)
+            if not (a and a[2] == "None" and a[1] in (ast.Is, ast.IsNot)):
+                continue
+            var = a[0]
+            ctor = [s for s in ast.walk(t_ast) if isinstance(s, ast.Assign) and norm(s.targets[0]) == var and isinstance(s.value, ast.Call)
+                    and ((dotted(s.value.func) or "").startswith("models.") or norm(s.value.func) == "model_cls")]
+            if not ctor:
+                continue
+            if mname in UPSERT_EXEMPT:
+                ctx.ok("R01.12", f.short, f"upsert-exempt:{var}", how=UPSERT_EXEMPT[mname], nontrivial=False)
+                continue
+            if g is None:
+                g = CFG(f.node, name=f.qualname)
+            tn = [x for x in g.nodes_of(t_ast) if x.kind == "test"]
+            if not tn:
+                continue
+            tnode = tn[0]
+            none_edge = "t" if a[1] is ast.Is else "f"
+            cols = {}
+            for kind, label in ((none_edge, "insert"), ("f" if none_edge == "t" else "t", "update")):
+                starts = [m for k, m in tnode.succ if k == kind]
+                reach = g.reachable(starts, edge_ok=NORMAL)
+                d = {}
+                for nd in reach:
+                    if nd.kind == "stmt" and isinstance(nd.ast, ast.Assign):
+                        if label == "insert" and nd.ast in ctor:
+                            for kw in nd.ast.value.keywords:
+                                if kw.arg and kw.arg not in KEY_COLUMNS:
+                                    d[kw.arg] = norm(kw.value)
+                        for tg in nd.ast.targets:
+                            if isinstance(tg, ast.Attribute) and norm(tg.value) == var and tg.attr not in KEY_COLUMNS:
+                                d[tg.attr] = norm(nd.ast.value)
+                cols[label] = d
+            n += 1
+            ctx.check(cols["insert"] == cols["update"] and bool(cols["insert"]), "R01.12", f.short, f"upsert-arms-agree:{var}",
+                      message=f"RDBStorage.{mname}: a new `{var}` row gets {cols['insert']} but an existing one is updated with {cols['update']}: "
+                              f"overwriting a key leaves part of the old value behind (read back differs from the last write)",
+                      how=f"both arms write {sorted(cols['insert'])}", where=where(f, t_ast))
+    ctx.floor("R01.12", "upsert_sites", n, 5)
+
+
+# ------------------------------------------------------------------------------------------------
 def run(ctx):
     p: Program = ctx.program
     ctx.explanation = (
@@ -788,3 +841,4 @@ def run(ctx):
     r01_9(ctx, p)
     r01_10(ctx, p)
     r01_11(ctx, p)
+    r01_12(ctx, p)
